@@ -50,11 +50,11 @@ Hypothesis Hchk : c_dateChk cf = false.
 Hypothesis Hdp : 0 < d_dpas d.
 Hypothesis Htol : 0 <= d_tol d.
 Hypothesis Hps0 : 0 <= d_psmin d.
-Hypothesis Hps1 : d_psmin d <= 1.
 Hypothesis Hcodir : 0 < Qred (dot (d_codir d) (d_codir d)).
 
 (* what getSwVec / getGgVec report for the variogram: the weight of the pairs of the lag and the defining average *)
-Lemma solution1_vg_reports l iv jv k :
+Lemma solution1_vg_reports n l iv jv k :
+  Forall (same_dim n) l ->
   (jv <= iv)%nat -> (iv < c_nvar cf)%nat -> (k < d_npas d)%nat ->
   exists oc,
     nth_error (block (d_npas d) (var_rank iv jv) (rescale cf (d_npas d) (accumulate1 cf d l))) k = Some oc /\
@@ -63,8 +63,8 @@ Lemma solution1_vg_reports l iv jv k :
     (0 < vg_sw cf d iv jv k l ->
        exists g, o_gg oc = Some (g, g) /\ g == vg_num cf d iv jv k l / vg_sw cf d iv jv k l).
 Proof.
-  intros Hj Hi Hk.
-  pose proof (accumulate1_vg cf d Hcalc Hloop Hchk Hdp Htol Hps0 Hcodir l iv jv k Hj Hi Hk) as A.
+  intros Hdim Hj Hi Hk.
+  pose proof (accumulate1_vg cf d Hcalc Hchk Hdp Htol Hps0 Hcodir n l iv jv k Hloop Hdim Hj Hi Hk) as A.
   cbv zeta in A.
   set (adr := dir_address false (d_npas d) iv jv k Ozero) in *.
   assert (Hadr : (adr < length (accumulate1 cf d l))%nat).
